@@ -8,11 +8,14 @@ Property theorems only (helper lemmas: `Proofs/CopyState.lean`, `Proofs/CopyArch
 arithmetic-free ([AF]); the state-level ones hold for every space tree (`Sp` nests `List Sp` arbitrarily) and every
 state that `fits` it (shape allocated by the space, 64-bit patterns / 32-bit ints).
 
-Two findings on the unchanged code are reproduced by the model and proved as `…_fails` witnesses:
-* F-C09-a `markGoalState` does not keep the goal list sorted while `isGoalVertex` is a binary search;
-* F-C09-b `storeVertices` stores a single type per vertex (a start *and* goal vertex comes back as a start).
-`load_store_graph` is therefore stated under `GoalsOK` (ascending goal list) and `Disjoint` (no vertex is both);
-its full form (no such hypotheses) is false, see `load_store_graph_needs_sorted_goals/_needs_disjoint`.
+* F29 (fixed in /repo by 4a60b3f19): `markGoalState` did not keep the goal list sorted while `isGoalVertex` is a binary
+  search.  The model follows the fixed code (`Graph.markGoal` = sorted insert); the old operation is kept as
+  `Graph.markGoalOld` with the kernel-checked witness `load_store_unsorted_goals_old_fails`.
+* F31 (open finding): `storeVertices` stores a single type per vertex (a start *and* goal vertex comes back as a
+  start).  `load_store_graph_partial` therefore keeps the hypothesis `Disjoint`; the full form is refuted by
+  `load_store_start_and_goal_fails`.
+* F32 (open finding): a wrapper around a compound below a compound loses its value locations
+  (`valueLocations_wrapped_compound_fails`); location theorems carry `Sp.ok`.
 -/
 namespace OmplModel.Props.C09
 open OmplModel.Copy
@@ -56,7 +59,7 @@ example : addrAtIndex (.compound 1 [.discrete 2, .real 3 0, .compound 4 [.so2 5,
   decide
 
 /-- `getValueLocations()` (the `computeLocationsHelper` enumeration) resolves to every double of the state exactly
-once and in order, for every nesting without a wrapper-of-compound below a compound (`Sp.ok`; see F-C09-c) -/
+once and in order, for every nesting without a wrapper-of-compound below a compound (`Sp.ok`; see F32) -/
 theorem valueLocations_enumerates_each_once (sp : Sp) (h : sp.ok = true) :
     (valueLocations sp).map (resolve sp) = (realAddrs sp).map some ∧ (realAddrs sp).Nodup ∧
     (realAddrs sp).length = nReals sp :=
@@ -65,7 +68,7 @@ theorem valueLocations_enumerates_each_once (sp : Sp) (h : sp.ok = true) :
 example : (Sp.compound 0 [.discrete 1, .wrapper 2 (.so2 3), .compound 4 [.real 5 2]]).ok = true ∧
     (valueLocations (.compound 0 [.discrete 1, .wrapper 2 (.so2 3), .compound 4 [.real 5 2]])).length = 3 := by decide
 
-/-- F-C09-c as the model reproduces it: a wrapper around a compound below a compound loses its value locations -/
+/-- F32 as the model reproduces it: a wrapper around a compound below a compound loses its value locations -/
 theorem valueLocations_wrapped_compound_fails :
     ¬ ∀ sp : Sp, (valueLocations sp).map (resolve sp) = (realAddrs sp).map some := by
   intro h
@@ -134,32 +137,49 @@ example : loadStates [2, 1, 1] ((storeStates [2, 1, 1] [[1], [2]]).take 2) = .er
 /-! ## planner-data archives -/
 
 /-- store then load gives the same graph (same vertices with tags and state images, same edges with weights and
-controls, same start and goal lists; identity on indices, hence an isomorphism), for every well-formed graph
-whose goal list is ascending and in which no vertex is both start and goal -/
-theorem load_store_graph_partial (m : Nat) (sig csig : List Int) (g : Graph)
+controls, same start and goal lists; identity on indices, hence an isomorphism), for **every graph the
+`PlannerData` operations can build** (`addVertex`, `addEdge`, `markStart`, `markGoal`, `setTag`, `removeEdge`,
+`removeVertex`, in any order — with `markGoalState` as fixed by 4a60b3f19 the goal list is always ascending, so no
+hypothesis about it is needed any more) in which no vertex is both start and goal (`Disjoint`, finding F31) -/
+theorem load_store_graph_partial (m : Nat) (sig csig : List Int) (g : Graph) (hb : Built g) (hD : Disjoint g) :
+    loadGraph m sig csig (storeGraph m sig csig g) = .ok g :=
+  load_store_graph_built m sig csig g hb hD
+
+/- full statement (false on the current code because of F31):
+   `∀ g, Built g → loadGraph m sig csig (storeGraph m sig csig g) = .ok g` -/
+
+example : Built (((((({} : Graph).addVertex ⟨3, [1]⟩).addVertex ⟨4, [2]⟩).addVertex ⟨5, [3]⟩).markGoal 2).markGoal 0) ∧
+    (((((({} : Graph).addVertex ⟨3, [1]⟩).addVertex ⟨4, [2]⟩).addVertex ⟨5, [3]⟩).markGoal 2).markGoal 0).goals = [0, 2] :=
+  ⟨.markGoal 0 (.markGoal 2 (.addVertex _ (.addVertex _ (.addVertex _ .empty)))), by decide⟩
+
+/-- the same invariant, usable for graphs given as data: well-formed edges, ascending start and goal lists -/
+theorem load_store_graph_of_invariant (m : Nat) (sig csig : List Int) (g : Graph)
     (hW : g.WF) (hS : StartsOK g) (hG : GoalsOK g) (hD : Disjoint g) :
     loadGraph m sig csig (storeGraph m sig csig g) = .ok g :=
   load_store_graph_eq m sig csig g hW hS hG hD
 
-example : loadGraph markerPD [2, 1, 2] []
-    (storeGraph markerPD [2, 1, 2] [] (((({} : Graph).addVertex ⟨3, [1]⟩).addVertex ⟨4, [2]⟩).markGoal 1))
-    = .ok (((({} : Graph).addVertex ⟨3, [1]⟩).addVertex ⟨4, [2]⟩).markGoal 1) := by
-  apply except_eq_ok_of_decide; decide
+/-- F29 (fixed by 4a60b3f19), kept as a witness about the *old* `markGoalState` (`Graph.markGoalOld`: the goal list
+stayed in marking order): goals marked 2 then 0 are both lost by store → load -/
+theorem load_store_unsorted_goals_old_fails (m : Nat) (sig csig : List Int) :
+    gUnsortedGoals = ((((({} : Graph).addVertex ⟨0, []⟩).addVertex ⟨0, []⟩).addVertex ⟨0, []⟩).markGoalOld 2).markGoalOld 0 ∧
+    gUnsortedGoals.goals = [2, 0] ∧
+    loadGraph m sig csig (storeGraph m sig csig gUnsortedGoals) = .ok { gUnsortedGoals with goals := [] } :=
+  ⟨rfl, (OmplModel.Copy.load_store_unsorted_goals_old_fails m sig csig).2.2.2.1,
+   (OmplModel.Copy.load_store_unsorted_goals_old_fails m sig csig).2.2.2.2.2⟩
 
-/-- F-C09-a: goals marked in descending order are all lost by store → load (the unrestricted round trip fails) -/
-theorem load_store_unsorted_goals_fails :
-    ¬ ∀ (m : Nat) (sig csig : List Int) (g : Graph), g.WF → StartsOK g → Disjoint g →
-        (∀ i ∈ g.goals, i < g.verts.length) →
-        ∃ g', loadGraph m sig csig (storeGraph m sig csig g) = .ok g' ∧
-          g'.verts = g.verts ∧ g'.edges = g.edges ∧ g'.starts = g.starts ∧ g'.goals = g.goals :=
-  load_store_graph_needs_sorted_goals
-
-/-- F-C09-b: a vertex that is both start and goal comes back as a start only -/
+/-- F31: a vertex that is both start and goal comes back as a start only — the round trip fails for a graph the
+operations can build -/
 theorem load_store_start_and_goal_fails :
-    ¬ ∀ (m : Nat) (sig csig : List Int) (g : Graph), g.WF → StartsOK g → GoalsOK g →
-        ∃ g', loadGraph m sig csig (storeGraph m sig csig g) = .ok g' ∧
-          g'.verts = g.verts ∧ g'.edges = g.edges ∧ g'.starts = g.starts ∧ g'.goals = g.goals :=
-  load_store_graph_needs_disjoint
+    ¬ ∀ (m : Nat) (sig csig : List Int) (g : Graph), Built g →
+        loadGraph m sig csig (storeGraph m sig csig g) = .ok g := by
+  intro h
+  have hb : Built gStartAndGoal := .markGoal 0 (.markStart 0 (.addVertex _ .empty))
+  have h1 := h 0 [] [] gStartAndGoal hb
+  rw [(OmplModel.Copy.load_store_start_and_goal_fails 0 [] []).2.2.2.2.2] at h1
+  injection h1 with h1
+  have h2 := congrArg Graph.goals h1
+  rw [gStartAndGoal_eq] at h2
+  simp at h2
 
 /-- `std::binary_search` finds exactly the members of an ascending list (what `isStartVertex/isGoalVertex` rely on) -/
 theorem lookup_accurate_when_sorted (l : List Nat) (x : Nat) (hs : l.Pairwise (· < ·)) :
